@@ -288,6 +288,72 @@ func boundary(thorough bool, rng *rand.Rand, run runFn, fill fillFn) {
 		}
 	}
 
+	// ---------------------------------------------------------------- saved cursors and scrolling regions
+	// Restoring a cursor puts it back on the absolute saved line and column; the scrolling
+	// region plays no part (no origin mode in the vocabulary).  Every region shape (and none)
+	// x the saved line on every line of the screen (above / on the top margin / inside / on the
+	// bottom margin / below the region, first and last line) x the save/restore pairs of the
+	// vocabulary (DECSC..DECRC on the normal screen, ?1049h..?1049l, DECSC..DECRC on the
+	// alternate screen) x the region set before the save or between the save and the restore
+	// (over a different region that was there at the save).  After the restore a glyph and an
+	// index show on which line, relative to the region, the cursor really is.
+	{
+		type ssize struct {
+			w, h int
+			rs   []region
+		}
+		ss := []ssize{{3, 4, allRegions(4)}, {2, 6, []region{{2, 4, true}, {3, 5, true}}}}
+		if thorough {
+			ss = []ssize{{3, 3, allRegions(3)}, {3, 4, allRegions(4)}, {2, 5, allRegions(5)}, {4, 6, allRegions(6)}, {2, 7, allRegions(7)}}
+		}
+		red := op{Name: "SGR", Sgr: []string{"SFg 1", "SBg 4"}, SgrB: "31;44"}
+		stbm := func(rg region) op { return op{Name: "DECSTBM", P: []par{{N: int64(rg.t)}, {N: int64(rg.b)}}} }
+		for _, v := range ss {
+			g := &gen{r: rng, w: v.w, h: v.h}
+			sz := fmt.Sprintf("size-%dx%d", v.w, v.h)
+			for ri, rg := range v.rs {
+				for r := 1; r <= v.h; r++ {
+					for pair := 0; pair < 3; pair++ {
+						for after := 0; after < 2; after++ {
+							if after == 1 && !rg.set {
+								continue
+							}
+							c := 2
+							if (r+pair+after)%2 == 0 {
+								c = v.w // the last column (no wrap pending: reached by CUP)
+							}
+							save, restore := op{Name: "DECSC"}, op{Name: "DECRC"}
+							if pair == 1 {
+								save, restore = op{Name: "AltOn"}, op{Name: "AltOff"}
+							}
+							var ops []op
+							if pair == 2 {
+								ops = append(ops, op{Name: "AltOn"})
+							}
+							ops = append(ops, marks(g)...)
+							if other := v.rs[(ri+2)%len(v.rs)]; after == 0 && rg.set {
+								ops = append(ops, stbm(rg))
+							} else if after == 1 && ri%2 == 1 && other.set {
+								// a different region is in place at the save
+								ops = append(ops, stbm(other))
+							}
+							ops = append(ops, cup(r, c), red)
+							skip := len(ops)
+							ops = append(ops, save, light(op{Name: "SGR"}))
+							if after == 1 {
+								ops = append(ops, light(stbm(rg)))
+							}
+							// work elsewhere: inside the region, on its top line
+							ops = append(ops, light(cup(rg.t, 1)), light(pr("a")))
+							ops = append(ops, restore, pr("q"), light(cup(r, 1)), op{Name: "IND"}, light(restore), pr("z"))
+							run(v.w, v.h, skip, ops, "boundary-saved-region", sz)
+						}
+					}
+				}
+			}
+		}
+	}
+
 	// ---------------------------------------------------------------- random, biased to the boundaries
 	n := 80
 	if thorough {
@@ -305,8 +371,10 @@ func boundary(thorough bool, rng *rand.Rand, run runFn, fill fillFn) {
 				o := op{Name: "DECSTBM", P: []par{{N: int64(1 + rng.Intn(g.h))}, {N: int64(1 + rng.Intn(g.h+1))}}}
 				g.note(o)
 				ops = append(ops, g.defined(o)...)
-			case j < 7:
+			case j < 6:
 				ops = append(ops, g.near()...)
+			case j < 7:
+				ops = append(ops, g.savedEpisode()...)
 			default:
 				o := g.op()
 				g.note(o)
@@ -333,6 +401,45 @@ func (g *gen) note(o op) {
 	if t < b {
 		g.top, g.bot = int(t), int(b)
 	}
+}
+
+// marginRow: a line on, one above or one below a margin, or the first / last line
+func (g *gen) marginRow() int {
+	rows := []int{g.top - 1, g.top, g.top + 1, g.bot - 1, g.bot, g.bot + 1, g.bot + 1, 1, g.h, g.h}
+	r := rows[g.r.Intn(len(rows))]
+	if r < 1 {
+		r = 1
+	}
+	if r > g.h {
+		r = g.h
+	}
+	return r
+}
+
+// savedEpisode: the cursor is saved on a line near a margin (often below the region), then
+// the region may change and the cursor works elsewhere, then the cursor is restored by the
+// same or by the other mechanism, and a glyph and an index show where it is
+func (g *gen) savedEpisode() []op {
+	saves := [][]op{{{Name: "DECSC"}}, {{Name: "AltOn"}}, {{Name: "AltOn"}, {Name: "DECSC"}}, {{Name: "AltOff"}, {Name: "DECSC"}}}
+	restores := [][]op{{{Name: "DECRC"}}, {{Name: "AltOff"}}, {{Name: "AltOn"}, {Name: "AltOff"}}, {{Name: "DECRC"}, {Name: "DECRC"}}}
+	out := []op{light(cup(g.marginRow(), 1+g.r.Intn(g.w)))}
+	out = append(out, saves[g.r.Intn(len(saves))]...)
+	if g.r.Intn(2) == 0 {
+		o := op{Name: "DECSTBM", P: []par{{N: int64(1 + g.r.Intn(g.h))}, {N: int64(1 + g.r.Intn(g.h+1))}}}
+		g.note(o)
+		out = append(out, o)
+	}
+	for k := g.r.Intn(3); k > 0; k-- {
+		out = append(out, g.near()...)
+	}
+	// a wrap may be pending: an absolute move first (restoring is left open in that state)
+	out = append(out, light(cup(g.top, 1)))
+	out = append(out, restores[g.r.Intn(len(restores))]...)
+	out = append(out, pr("q"))
+	if g.r.Intn(2) == 0 {
+		out = append(out, light(o1("CHA", par{Om: true})), op{Name: []string{"IND", "LF", "RI", "NEL"}[g.r.Intn(4)]})
+	}
+	return out
 }
 
 // the operations the reference terminal specifies while a wrap is pending (allowed_pending)
